@@ -1,4 +1,10 @@
 
+(** val negb : bool -> bool **)
+
+let negb = function
+| true -> false
+| false -> true
+
 type nat =
 | O
 | S of nat
@@ -80,6 +86,11 @@ module Nat =
     | S n' -> (match m with
                | O -> false
                | S m' -> leb n' m')
+
+  (** val ltb : nat -> nat -> bool **)
+
+  let ltb n0 m =
+    leb (S n0) m
  end
 
 module Pos =
@@ -595,6 +606,17 @@ module Z =
     let (_, r) = div_eucl a b in r
  end
 
+(** val nth : nat -> 'a1 list -> 'a1 -> 'a1 **)
+
+let rec nth n0 l default =
+  match n0 with
+  | O -> (match l with
+          | [] -> default
+          | x :: _ -> x)
+  | S m -> (match l with
+            | [] -> default
+            | _ :: t -> nth m t default)
+
 (** val removelast : 'a1 list -> 'a1 list **)
 
 let rec removelast = function
@@ -653,6 +675,43 @@ let rec skipn n0 l =
 
 type byte = n
 
+(** val nonempty : 'a1 list -> bool **)
+
+let nonempty = function
+| [] -> false
+| _ :: _ -> true
+
+(** val has_prefix : n list -> n list -> bool **)
+
+let rec has_prefix p l =
+  match p with
+  | [] -> true
+  | x :: p' ->
+    (match l with
+     | [] -> false
+     | y :: l' -> (&&) (N.eqb x y) (has_prefix p' l'))
+
+(** val index_of : n list -> n list -> nat option **)
+
+let rec index_of pat l =
+  if has_prefix pat l
+  then Some O
+  else (match l with
+        | [] -> None
+        | _ :: l' ->
+          (match index_of pat l' with
+           | Some i -> Some (S i)
+           | None -> None))
+
+(** val last_index_of : n list -> n list -> nat option **)
+
+let rec last_index_of pat l = match l with
+| [] -> if has_prefix pat [] then Some O else None
+| _ :: l' ->
+  (match last_index_of pat l' with
+   | Some i -> Some (S i)
+   | None -> if has_prefix pat l then Some O else None)
+
 (** val index_byte : n -> n list -> nat option **)
 
 let rec index_byte b = function
@@ -709,6 +768,131 @@ let escape_all_chars =
 
 let escape_all_first_code =
   Npos (XI (XO (XO (XO (XO (XO XH))))))
+
+(** val win_init_last : n **)
+
+let win_init_last =
+  Npos (XI (XI (XO (XI XH))))
+
+(** val win_terminator : n **)
+
+let win_terminator =
+  Npos (XI (XO (XO (XO (XO XH)))))
+
+(** val win_after_terminator : n **)
+
+let win_after_terminator =
+  Npos (XO (XI (XO XH)))
+
+(** val win_interrupt : n **)
+
+let win_interrupt =
+  Npos (XI XH)
+
+(** val win_newline : n **)
+
+let win_newline =
+  Npos (XO (XI (XO XH)))
+
+(** val win_move_final : n **)
+
+let win_move_final =
+  Npos (XO (XO (XO (XI (XO (XO XH))))))
+
+(** val win_digit_lo : n **)
+
+let win_digit_lo =
+  Npos (XO (XO (XO (XO (XI XH)))))
+
+(** val win_digit_hi : n **)
+
+let win_digit_hi =
+  Npos (XI (XO (XO (XI (XI XH)))))
+
+(** val win_home_prev : n **)
+
+let win_home_prev =
+  Npos (XI (XI (XO (XI (XI (XO XH))))))
+
+(** val win_home_final : n **)
+
+let win_home_final =
+  Npos (XO (XO (XO (XI (XO (XO XH))))))
+
+(** val win_esc : n **)
+
+let win_esc =
+  Npos (XI (XI (XO (XI XH))))
+
+(** val trzsz_letter_ranges : (n * n) list **)
+
+let trzsz_letter_ranges =
+  ((Npos (XI (XO (XO (XO (XO (XI XH))))))), (Npos (XO (XI (XO (XI (XI (XI
+    XH)))))))) :: (((Npos (XI (XO (XO (XO (XO (XO XH))))))), (Npos (XO (XI
+    (XO (XI (XI (XO XH)))))))) :: (((Npos (XO (XO (XO (XO (XI XH)))))), (Npos
+    (XI (XO (XO (XI (XI XH))))))) :: []))
+
+(** val trzsz_letter_singles : n list **)
+
+let trzsz_letter_singles =
+  (Npos (XI (XI (XO (XO (XO XH)))))) :: ((Npos (XO (XI (XO (XI (XI
+    XH)))))) :: ((Npos (XI (XI (XO (XI (XO XH)))))) :: ((Npos (XI (XI (XI (XI
+    (XO XH)))))) :: ((Npos (XI (XO (XI (XI (XI XH)))))) :: []))))
+
+(** val vt100_end_ranges : (n * n) list **)
+
+let vt100_end_ranges =
+  ((Npos (XI (XO (XO (XO (XO (XI XH))))))), (Npos (XO (XI (XO (XI (XI (XI
+    XH)))))))) :: (((Npos (XI (XO (XO (XO (XO (XO XH))))))), (Npos (XO (XI
+    (XO (XI (XI (XO XH)))))))) :: [])
+
+(** val recv_marker_open : n list **)
+
+let recv_marker_open =
+  (Npos (XI (XI (XO (XO (XO XH)))))) :: []
+
+(** val recv_marker_close : n list **)
+
+let recv_marker_close =
+  (Npos (XO (XI (XO (XI (XI XH)))))) :: []
+
+(** val recv_fallback_byte : n **)
+
+let recv_fallback_byte =
+  Npos (XI (XI (XO (XO (XO XH)))))
+
+(** val tmux_status_begin : n list **)
+
+let tmux_status_begin =
+  (Npos (XI (XI (XO (XI XH))))) :: ((Npos (XO (XO (XO (XO (XI (XO
+    XH))))))) :: ((Npos (XI (XO (XI (XI (XI XH)))))) :: []))
+
+(** val tmux_status_begin_skip : n **)
+
+let tmux_status_begin_skip =
+  Npos (XI XH)
+
+(** val tmux_status_mid : n list **)
+
+let tmux_status_mid =
+  (Npos (XI (XI (XO (XI XH))))) :: ((Npos (XO (XO (XO (XO (XI (XO
+    XH))))))) :: ((Npos (XI (XO (XI (XI (XI XH)))))) :: []))
+
+(** val tmux_status_mid_skip : n **)
+
+let tmux_status_mid_skip =
+  Npos (XI XH)
+
+(** val tmux_status_end : n list **)
+
+let tmux_status_end =
+  (Npos (XI (XI (XO (XI XH))))) :: ((Npos (XO (XO (XI (XI (XI (XO
+    XH))))))) :: [])
+
+(** val tmux_status_end_skip : n **)
+
+let tmux_status_end_skip =
+  Npos (XO XH)
 
 (** val nl : byte **)
 
@@ -1156,3 +1340,225 @@ let builtin_table escape_all =
   match table_of_json (builtin_json escape_all) with
   | Some t -> t
   | None -> []
+
+(** val marker : byte list -> byte list **)
+
+let marker ty =
+  app recv_marker_open (app ty recv_marker_close)
+
+(** val marker_cut : byte list -> byte list -> byte list **)
+
+let marker_cut ty line =
+  match last_index_of (marker ty) line with
+  | Some i -> skipn i line
+  | None ->
+    (match last_index_of (recv_fallback_byte :: []) line with
+     | Some n0 -> (match n0 with
+                   | O -> line
+                   | S i -> skipn (S i) line)
+     | None -> line)
+
+(** val strip_tmux : nat -> byte list -> byte list **)
+
+let rec strip_tmux fuel buf =
+  match fuel with
+  | O -> buf
+  | S f ->
+    (match index_of tmux_status_begin buf with
+     | Some b ->
+       let i1 = add b (N.to_nat tmux_status_begin_skip) in
+       (match index_of tmux_status_mid (skipn i1 buf) with
+        | Some m ->
+          let i2 = add (add i1 m) (N.to_nat tmux_status_mid_skip) in
+          (match index_of tmux_status_end (skipn i2 buf) with
+           | Some e ->
+             let i3 = add (add i2 e) (N.to_nat tmux_status_end_skip) in
+             strip_tmux f (app (firstn b buf) (skipn i3 buf))
+           | None -> firstn b buf)
+        | None -> firstn b buf)
+     | None -> buf)
+
+(** val strip_tmux_status : byte list -> byte list **)
+
+let strip_tmux_status buf =
+  strip_tmux (S (length buf)) buf
+
+(** val recv_line : byte list -> bool -> pending -> rres **)
+
+let recv_line ty junk pend =
+  match read_line junk [] pend with
+  | Done (line, p') ->
+    Done ((if junk then strip_tmux_status (marker_cut ty line) else line), p')
+  | x -> x
+
+(** val in_ranges : (n * n) list -> byte -> bool **)
+
+let in_ranges rs b =
+  existsb (fun r -> (&&) (N.leb (fst r) b) (N.leb b (snd r))) rs
+
+(** val is_trzsz_letter : byte -> bool **)
+
+let is_trzsz_letter b =
+  (||) (in_ranges trzsz_letter_ranges b)
+    (existsb (N.eqb b) trzsz_letter_singles)
+
+(** val is_vt100_end : byte -> bool **)
+
+let is_vt100_end b =
+  in_ranges vt100_end_ranges b
+
+type wst = { w_last : byte; w_skip : bool; w_nl : bool; w_dup : bool;
+             w_home : bool; w_prehome : bool }
+
+(** val w_init : wst **)
+
+let w_init =
+  { w_last = win_init_last; w_skip = false; w_nl = false; w_dup = false;
+    w_home = false; w_prehome = false }
+
+(** val last_is : byte list -> byte -> bool **)
+
+let last_is l c =
+  match rev l with
+  | [] -> false
+  | x :: _ -> N.eqb c x
+
+(** val set_last : byte list -> byte -> byte list **)
+
+let set_last l c =
+  app (removelast l) (c :: [])
+
+(** val win_byte : wst -> byte list -> byte -> (wst * byte list) option **)
+
+let win_byte st acc c =
+  if N.eqb c win_interrupt
+  then None
+  else let nl0 = if N.eqb c win_newline then true else st.w_nl in
+       if st.w_skip
+       then let ends = is_vt100_end c in
+            let dup =
+              if (&&)
+                   ((&&) ((&&) ends (N.eqb c win_move_final))
+                     (N.leb win_digit_lo st.w_last))
+                   (N.leb st.w_last win_digit_hi)
+              then true
+              else st.w_dup
+            in
+            let home =
+              if (&&) (N.eqb st.w_last win_home_prev) (N.eqb c win_home_final)
+              then true
+              else st.w_home
+            in
+            Some ({ w_last = c; w_skip = (negb ends); w_nl = nl0; w_dup =
+            dup; w_home = home; w_prehome = st.w_prehome }, acc)
+       else if N.eqb c win_esc
+            then Some ({ w_last = c; w_skip = true; w_nl = nl0; w_dup =
+                   st.w_dup; w_home = st.w_home; w_prehome = st.w_prehome },
+                   acc)
+            else if is_trzsz_letter c
+                 then if (&&) ((&&) ((&&) st.w_dup nl0) (nonempty acc))
+                           ((||) (last_is acc c) st.w_prehome)
+                      then Some ({ w_last = st.w_last; w_skip = false; w_nl =
+                             nl0; w_dup = false; w_home = st.w_home;
+                             w_prehome = st.w_prehome }, (set_last acc c))
+                      else Some ({ w_last = st.w_last; w_skip = false; w_nl =
+                             false; w_dup = false; w_home = false;
+                             w_prehome = st.w_home }, (app acc (c :: [])))
+                 else Some ({ w_last = st.w_last; w_skip = false; w_nl = nl0;
+                        w_dup = st.w_dup; w_home = st.w_home; w_prehome =
+                        st.w_prehome }, acc)
+
+(** val win_fold :
+    wst -> byte list -> byte list -> (wst * byte list) option **)
+
+let rec win_fold st acc = function
+| [] -> Some (st, acc)
+| c :: t ->
+  (match win_byte st acc c with
+   | Some p -> let (st', acc') = p in win_fold st' acc' t
+   | None -> None)
+
+type wcres =
+| WCLine of byte list * nat * byte list
+| WCIntr of nat * byte list
+| WCMore of wst * byte list
+
+(** val win_chunk : nat -> wst -> byte list -> nat -> byte list -> wcres **)
+
+let rec win_chunk fuel st acc off buf =
+  match fuel with
+  | O -> WCMore (st, acc)
+  | S f ->
+    (match index_byte win_terminator buf with
+     | Some i ->
+       let k = add i (S O) in
+       let off1 = add off k in
+       let used =
+         if (&&) (Nat.ltb off1 (length buf))
+              (N.eqb (nth off1 buf N0) win_after_terminator)
+         then add k (S O)
+         else k
+       in
+       let post = skipn used buf in
+       (match win_fold st acc (firstn i buf) with
+        | Some p ->
+          let (st', acc') = p in
+          if (&&) (nonempty acc') (negb st'.w_skip)
+          then WCLine (acc', (add off used), post)
+          else (match post with
+                | [] -> WCMore (st', acc')
+                | _ :: _ -> win_chunk f st' acc' (add off used) post)
+        | None -> WCIntr ((add off used), post))
+     | None ->
+       (match win_fold st acc buf with
+        | Some p -> let (st', acc') = p in WCMore (st', acc')
+        | None -> WCIntr ((add off (length buf)), [])))
+
+type wres =
+| WDone of byte list * nat * pending
+| WBlocked
+| WInterrupted of nat * pending
+
+(** val win_read : wst -> byte list -> nat -> pending -> wres **)
+
+let rec win_read st acc off = function
+| [] -> WBlocked
+| c :: rest ->
+  (match win_chunk (S (length c)) st acc off c with
+   | WCLine (l, o, post) -> WDone (l, o, (post :: rest))
+   | WCIntr (o, post) -> WInterrupted (o, (post :: rest))
+   | WCMore (st', acc') -> win_read st' acc' O rest)
+
+(** val read_line_windows : nat -> pending -> wres **)
+
+let read_line_windows off pend =
+  win_read w_init [] off pend
+
+(** val recv_line_windows : byte list -> nat -> pending -> wres **)
+
+let recv_line_windows ty off pend =
+  match read_line_windows off pend with
+  | WDone (line, o, p') -> WDone ((marker_cut ty line), o, p')
+  | x -> x
+
+(** val win_run : byte list list -> nat -> pending -> result list **)
+
+let rec win_run tys off pend =
+  match tys with
+  | [] -> []
+  | ty :: r ->
+    (match recv_line_windows ty off pend with
+     | WDone (l, o, p') -> (RData l) :: (win_run r o p')
+     | WBlocked -> RBlocked :: []
+     | WInterrupted (o, p') -> RInterrupted :: (win_run r o p'))
+
+(** val junk_run : byte list list -> bool -> pending -> result list **)
+
+let rec junk_run tys junk pend =
+  match tys with
+  | [] -> []
+  | ty :: r ->
+    (match recv_line ty junk pend with
+     | Done (l, p') -> (RData l) :: (junk_run r junk p')
+     | Blocked -> RBlocked :: []
+     | Interrupted p' -> RInterrupted :: (junk_run r junk p'))
